@@ -1,6 +1,8 @@
+import DarkluaModel.Shared.AstSexp
 import DarkluaModel.Rules.RemoveAssertions
 import DarkluaModel.Rules.RemoveDebugProfiling
 import DarkluaModel.Rules.InjectValue
+import DarkluaModel.Shared.VisitorSound.Heap.Refs
 /-!
 # C17 — rule dispatch and the decidable hypotheses of the partial theorems
 
@@ -46,3 +48,33 @@ def defects (r : Rule) (b : Block) : List String := flagsOf r b
 def inHypothesis (r : Rule) (b : Block) : Bool := (defects r b).isEmpty
 
 end DarkluaModel.C17
+
+/-! ### the region of the whole-rule theorem `inject_refines_whole` (`C17/Whole.lean`, `C17/Thm.lean`) -/
+namespace DarkluaModel.C17.Whole
+open Rules Rules.InjectValue
+
+/-- literal value expressions (what `inject_global_value` builds from scalar JSON values) -/
+def isLit : Expr → Bool
+  | .nil | .true | .false | .num _ | .str _ => true
+  | .un .neg (.num _) => true
+  | _ => false
+
+/-- the expression hook restricted to identifiers -/
+def processExpressionVar (ident : String) (value : Expr) (e : Expr) (st : St) : Expr × St :=
+  match e with
+  | .var _ => processExpression ident value e st
+  | _ => (e, st)
+
+def processorVar (ident : String) (value : Expr) : Processor St :=
+  { processor ident value with expr := processExpressionVar ident value }
+
+def applyVar (ident : String) (value : Expr) (b : Block) : Block :=
+  (Visitor.runScoped (processorVar ident value) b {}).1
+
+/-- is (value, program) inside the hypotheses of `inject_refines_whole`? literal value, the program never
+declares or assigns the name, and the rule's run coincides with the identifier-only run -/
+def inRegion (ident : String) (value : Expr) (b : Block) : Bool × Bool × Bool :=
+  (isLit value, !b.refs (.wat ident),
+    (InjectValue.apply ident value b).toSexp.toString == (applyVar ident value b).toSexp.toString)
+
+end DarkluaModel.C17.Whole
